@@ -74,6 +74,82 @@ def gen_random(k):
     return out
 
 
+
+# ---------------------------------------------------------------- padded length + virtual (huge) sequences
+def gen_pad():
+    """x for `pad` lines: l = round_up_to_power_of_two(x + 1) - 1 around every power of two up to 2^62, + random"""
+    xs = set()
+    for k in range(0, 63):
+        for dlt in (-2, -1, 0, 1):
+            x = (1 << k) + dlt
+            if 0 <= x <= (1 << 62) - 1:
+                xs.add(x)
+    for _ in range(150):
+        bits = rng.range(1, 62)
+        xs.add(rng.below(1 << bits))
+    return ["pad %d" % x for x in sorted(xs)]
+
+
+BIGLEN = [(1 << 32) + 70000, 1 << 32, (1 << 32) - 1, (1 << 32) + 1, (1 << 33) + 5, 3 * (1 << 31) + 7, (1 << 32) + (1 << 31)]
+SMALLLEN = [1, 1, 2, 3, 5, 1000, 70000, (1 << 31) - 1]
+
+
+def virt_parse(desc):
+    return [[(int(r.split("*")[0]), int(r.split("*")[1])) for r in q.split(",")] for q in desc.split("|")]
+
+
+def virt_expected(line):
+    """the specification (stable merge by (value, sequence)) evaluated on run-length encoded sequences"""
+    _, c, rank, desc = line.split()
+    rank = int(rank)
+    seqs = virt_parse(desc)
+    N = sum(cnt for q in seqs for _, cnt in q)
+    segs = sorted(((key if c == "L" else -key), i, ri, cnt, key) for i, q in enumerate(seqs) for ri, (key, cnt) in enumerate(q))
+    offs = [0] * len(seqs)
+    left = rank
+    sel = "throw"
+    before = 0
+    for ok, i, ri, cnt, key in segs:
+        take = min(cnt, left)
+        offs[i] += take
+        left -= take
+        if sel == "throw" and rank < N and before + cnt > rank:
+            less = sum(c2 for ok2, _, _, c2, _ in segs if ok2 < ok)
+            sel = "%d:%d" % (key, rank - less)
+        before += cnt
+    return "V%s %s => %d:%s:%s" % (c, desc, rank, ",".join(str(o) for o in offs), sel)
+
+
+def gen_virtual(k):
+    out = []
+    for _ in range(k):
+        c = rng.choice(["L", "L", "L", "G"])
+        m = rng.range(1, 4)
+        big = rng.below(m) if rng.chance(9, 10) else -1
+        seqs = []
+        for i in range(m):
+            nruns = rng.range(1, 4)
+            keys = sorted(rng.below(4) for _ in range(nruns))
+            if c == "G":
+                keys = keys[::-1]
+            runs = [(key, rng.choice(SMALLLEN)) for key in keys]
+            if i == big:
+                j = rng.below(nruns)
+                runs[j] = (runs[j][0], rng.choice(BIGLEN))
+            seqs.append(runs)
+        desc = "|".join(",".join("%d*%d" % r for r in q) for q in seqs)
+        N = sum(cnt for q in seqs for _, cnt in q)
+        rs = {0, 1, N - 1, N, N // 2, min(N, 1 << 32), min(N, (1 << 32) - 1), min(N, (1 << 32) + 1), min(N, 131071), min(N, 131072)}
+        acc = 0
+        for ok, i, ri, cnt, key in sorted(((key if c == "L" else -key), i, ri, cnt, key) for i, q in enumerate(seqs) for ri, (key, cnt) in enumerate(q)):
+            acc += cnt
+            rs.update(x for x in (acc - 1, acc, acc + 1) if 0 <= x <= N)
+        for _ in range(4):
+            rs.add(rng.below(N + 1))
+        for r in sorted(rs):
+            out.append("virt %s %d %s" % (c, r, desc))
+    return out
+
 # ---------------------------------------------------------------- the shards (each: list of case lines)
 corpus = [l.strip() for l in open(os.path.join(verif.VERIF, "corpus", "C08", "cases.txt")) if l.strip()]
 shards = []
@@ -91,6 +167,8 @@ elif ck.thorough():
     shards.append(("exh-G-m3-len8-k2", ["exh G 3 1 8 2"]))
     for i in range(4):
         shards.append(("random-%d" % i, gen_random(2500)))
+    shards.append(("pad", gen_pad()))
+    shards.append(("virtual", gen_virtual(400)))
 else:
     shards.append(("corpus", corpus))
     shards.append(("exh-L-m3-len4-k3", ["exh L 1 1 9 3", "exh L 2 1 4 3", "exh L 3 1 4 3"]))
@@ -99,6 +177,8 @@ else:
     shards.append(("exh-L-m2-len12-k2", ["exh L 2 1 12 2", "exh L 3 1 5 2"]))
     for i in range(2):
         shards.append(("random-%d" % i, gen_random(700)))
+    shards.append(("pad", gen_pad()))
+    shards.append(("virtual", gen_virtual(40)))
 
 # ---------------------------------------------------------------- build + run
 # The harness instantiates both templates for 10 variants x 3 comparators; it is compiled as four translation units
@@ -115,7 +195,18 @@ for k, (name, lines) in enumerate(shards):
     open(p, "w").write("\n".join(lines) + "\n")
     files.append(p)
 TMO = 3000
-fm = [pool.submit(verif.sh, [drv, p], TMO) for p in files] if drv else []
+def virt_model(lines):
+    return 0, "\n".join(virt_expected(l) for l in lines if l.startswith("virt ")) + "\n"
+
+
+def is_virt(lines):
+    return bool(lines) and all(l.startswith("virt ") for l in lines)
+
+
+# virtual sequences cannot be materialised for the extracted model: their expected answers come from virt_expected
+fm = [(pool.submit(virt_model, lines) if is_virt(lines) else pool.submit(verif.sh, [drv, p], TMO))
+      for p, (_, lines) in zip(files, shards)] if drv else []
+special = {"virtual_evaluations": 0, "pad_evaluations": 0}
 objs = [f.result() for f in parts]
 exe, log = None, "\n".join(l for _, l in objs)
 if all(o for o, _ in objs):
@@ -211,6 +302,26 @@ else:
         mism = [i for i in range(max(len(impl), len(model)))
                 if i >= len(impl) or i >= len(model) or impl[i] != model[i]]
         spec_bad = [l for l in model if "MODEL-DIFFERS-FROM-SPEC" in l]
+        sp = [i for i in mism if (i < len(impl) and (impl[i].startswith("V") or impl[i].startswith("pad ")))
+              or (i < len(model) and (model[i].startswith("V") or model[i].startswith("pad ")))]
+        mism = [i for i in mism if i not in set(sp)]
+        for i in sp[:3]:
+            a = impl[i] if i < len(impl) else "<missing>"
+            b = model[i] if i < len(model) else "<missing>"
+            if reported >= 3:
+                break
+            reported += 1
+            if a.startswith("V") or b.startswith("V"):
+                found = True
+                c, desc = (a if a.startswith("V") else b).split(" ")[0:2]
+                rank = (a if a.startswith("V") else b).split(" => ")[1].split(":")[0].strip()
+                ck.violation("answer on virtual (index-computed, > 2^32 elements) sequences violates the specification of "
+                             "partition_correct/selection_correct: impl=%s spec=%s" % (a[:300], b[:300]),
+                             {"case": "virt %s %s %s" % (c[1:], rank, desc), "impl": a[:2000], "spec": b[:2000]})
+            else:
+                ck.violation("padded length round_up_to_power_of_two(x+1)-1 differs from the model's rup2: impl=%s model=%s" % (a, b),
+                             {"correspondence": "MSP.rup2 vs tlx/math/round_to_power_of_two.hpp", "case": a.split(" =>")[0], "impl": a, "model": b},
+                             no_input=True)
         if mism:
             bad_lines = [impl[i] for i in mism[:200] if i < len(impl)]
             verdicts = judge(bad_lines) if bad_lines else []
@@ -239,6 +350,12 @@ else:
             parts = l.split(" ", 2)
             if len(parts) < 3:
                 continue
+            if l.startswith("V"):
+                special["virtual_evaluations"] += 1
+                continue
+            if l.startswith("pad "):
+                special["pad_evaluations"] += 1
+                continue
             tuples_run += 1
             seqs = parts[1].split("|")
             hist["cmp"][parts[0]] = hist["cmp"].get(parts[0], 0) + 1
@@ -256,7 +373,9 @@ if pr is not None and not pr["ok"]:
     ck.proof_broken(found)
 
 ck.finish({
-    "evaluations": stats.get("entries", 0),
+    "evaluations": stats.get("entries", 0) + special["virtual_evaluations"] + special["pad_evaluations"],
+    "virtual_evaluations": special["virtual_evaluations"],
+    "pad_evaluations": special["pad_evaluations"],
     "distinct_nontrivial": stats.get("nontrivial_distinct", 0),
     "tuples": tuples_run,
     "rule": "one evaluation = one (comparator, tuple of sorted sequences, rank) on which both multisequence_partition and "
@@ -270,7 +389,15 @@ ck.finish({
             "and random tuples (lengths around powers of two, 1-3 against 511..1025, up to 9 sequences; 1,2,3,5,1000 keys; "
             "comparators less / greater / less-on-x/4). Non-trivial = m >= 2, 0 < rank < N and some element left of the "
             "split is equivalent to some element right of it (the tie rule decides); distinct = first occurrence of the "
-            "(comparator, tuple) in the shard, counted by the OCaml driver.",
+            "(comparator, tuple) in the shard, counted by the OCaml driver. Additionally (not counted in distinct_nontrivial): "
+            "`pad x` = the padded length round_up_to_power_of_two(x+1)-1 through all six overloads against the model's rup2 "
+            "around every power of two up to 2^62; `virt` = run-length described sequences of up to 2^33 elements served by an "
+            "index-computing random-access iterator (difference_type long; RankType long / unsigned long / long long) — these "
+            "cannot be materialised for the extracted model, so their answers are checked against the SPECIFICATION of "
+            "partition_correct / selection_correct: by the harness through O(m^2 + m log n) probing of the predicate (sum, "
+            "order, tie rule; #(<v) <= r < #(<=v), offset) and by the check script's own evaluation of the stable merge on the "
+            "run-length encoding. Every rank is also run with rank and offset of multisequence_selection being the same object "
+            "and (pointer variants) with the offsets written in place into the iterator pairs.",
     "samples": samples,
     "input_distribution": hist,
     "template_variant_calls": variant_calls,
